@@ -140,10 +140,19 @@ def verify_function(repo, registry, qualname, only_variant=None):
                     ctx.assumed.add(f"lemma:{short}/{n} (proved separately)")
                 return [(lemma_terms[n], None) for n in names]
             kind, val, exc = "return", NONE, None
+            pushed = False
+            if cls is not None and "self" in bound:
+                cv = interp.resolve_class(cls.name if hasattr(cls, "name") else str(cls))
+                if cv is not None:
+                    interp.class_stack.append((cv, bound["self"]))      # the defining class: what super() refers to
+                    pushed = True
             try:
                 val = interp.run_body(fnode, env)
             except PyRaise as e:
                 kind, exc = "raise", e
+            finally:
+                if pushed:
+                    interp.class_stack.pop()
             interp.exit_env = env
             # ---- contract on this outcome
             meta = dict(function=qualname, variant=vtag)
